@@ -529,7 +529,19 @@ def attribute(case, ex, memo=None):
             if found:
                 break
     if found is None:
-        found = labels or ["baseline design"]
+        # no small subset: drop, one at a time, every trait the failure does not need (1-minimal set)
+        keep = list(range(len(tr)))
+        for i in list(keep):
+            if len(keep) == 1:
+                break
+            trial = [j for j in keep if j != i]
+            c = baseline_of(case)
+            for j in trial:
+                tr[j][1](c)
+            n += 1
+            if failure_fingerprint(execute(c)) == fp:
+                keep = trial
+        found = [labels[i] for i in keep] or ["every design"]
     label = " + ".join(dict.fromkeys(found))
     if memo is not None:
         memo[key] = label
